@@ -621,7 +621,7 @@ def unit_typed(unit):
                                 want = expected_dtype(list(r._underlying))
                                 agg.compared += 1
                                 if s_ is None or (want[0] is not None and s_.kind is not want[0]):
-                                    agg.violation(V("concat." + form, f"expected-{kname(want[0])}-got-{kname(s_.kind) if s_ is not None else None}", dict(case, values=list(r._underlying)), fmt(want), None if s_ is None else fmt(dt_pair(s_))))
+                                    agg.violation(V("concat." + form, f"expected-{fmt((want[0], False))}-got-{fmt((s_.kind, False)) if s_ is not None else None}", dict(case, values=list(r._underlying)), fmt(want), None if s_ is None else fmt(dt_pair(s_))))
                                 else:
                                     agg.outcomes["T-agree"] += 1
                                 continue
